@@ -155,6 +155,8 @@ Constructs added for the import side of term parameters (`Term._parse`, `configu
 * `t1, …, tn = e` for a list-valued `e` whose targets are declared locals or attributes kept as locals (`self.left` is the
   local `self_left`): `e` is evaluated, then unpacked - `ValueError` unless it has exactly `n` elements - and the targets
   are assigned (tried only when the right-hand side is not a translation-time constant, so older profiles are unaffected);
+  (also `a, b = e` with two local targets and a list-valued `e` - `rules, threshold = parameters.split()` -, which the rule for
+  pair-valued right-hand sides used to reject);
 * `del l[-1]` on a list local is `l.pop()` without the value; `n % k` for a natural `n` and a positive literal `k`;
 * `a or b` for two pure strings is the string `a` unless it is empty, else `b` (its truth value is `a != "" or b != ""`);
 * in an external pattern a constant matches a constant of the *same type* only (`1.0` is not `1` and not `True`).
@@ -240,6 +242,17 @@ does not depend on the iteration order of the set:
   exception ends the evaluation, then the texts are concatenated; a recursive call
   in expression position may pass an object for a parameter `T | None` (`self.prefix(self)`: the argument is `some self`);
 * a `Py.SetOf` is not iterable in the subset (no `for`, no comprehension over it: the order would be observable).
+
+Defaults of the signature (added for the constructors, profiles `wave5y.py`): with `emit_defaults: True` the
+definitions `F.dflt_<parameter> : <type of the parameter in the profile>` follow `F.run`, one for every Python parameter
+that the profile lists in `params` and that has a default value in the signature of the live function (the module is
+imported from the current source; the value is a `""`, `True`, `1.0`, `nan`, `-inf`, `None`, an `enum` member named by `const_objects`).  They are
+what a call that omits the argument passes (`Antecedent()` is `Antecedent_init.run Antecedent_init.dflt_text {}`), so a
+changed default changes the generated file.  A `None` default of an optional parameter is `none`; a float default of a
+parameter of type `X Rat` / `Num` is written with the constructor names both types share (`.nan`, `.pinf`, `.fin 1`).
+A parameter with a default of another kind makes the function untranslatable (nothing is skipped).
+Also added there: `o or d` for an optional object `o` (no `__bool__` / `__len__`) and a default `d` that can raise / is a
+translated call (`antecedent or Antecedent()`): `d` is evaluated only when `o` is `None`.
 
 Anything outside the subset raises `Untranslatable` - the tie is then reported as broken (never silently skipped).
 """
@@ -380,6 +393,7 @@ class Fn:
 
     def __init__(self, profile, obj, glob):
         self.p = profile
+        self.obj = obj
         self.name = profile["name"]
         self.glob = dict(glob)
         self.consts = {}          # local names bound to translation-time constants
@@ -742,6 +756,11 @@ class Fn:
             if isinstance(node.op, ast.Or) and len(vals) == 2 and vals[0].ty in (f"Option {vals[1].ty}", f"Option {paren(vals[1].ty)}") and vals[1].pure:
                 # `o or default` for an optional object without `__bool__` / `__len__`: the object, or the default for None
                 return self.bind1(vals[0], lambda x: f"(({x}).getD {paren(vals[1].term)})", vals[1].ty)
+            if (isinstance(node.op, ast.Or) and len(vals) == 2 and vals[0].ty in (f"Option {vals[1].ty}", f"Option {paren(vals[1].ty)}")
+                    and vals[0].pure and not vals[1].pure and vals[0].ty not in self.p.get("truthy", {})):
+                # `o or C()` where the default is *computed* (a constructor call that the profile translates): it is evaluated
+                # only when `o` is None (short circuit)
+                return E(f"(match {vals[0].term} with | some x => .ok x | none => {vals[1].term})", vals[1].ty, False)
             if isinstance(node.op, ast.Or) and len(vals) == 2 and vals[0].ty == vals[1].ty == "String" and vals[0].pure and vals[1].pure:
                 # `a or b` for two strings: `a` unless it is empty (its truth value is that of `a != "" or b != ""`)
                 return E(f"(if {paren(vals[0].term)} != \"\" then {vals[0].term} else {vals[1].term})", "String")
@@ -1247,6 +1266,10 @@ class Fn:
                 e = self.ce(s.value)
                 pt = pair_types(e.ty)
                 if pt is None:
+                    # two targets and a *list* on the right: the unpacking of a list (`ValueError` unless it has two elements)
+                    unpacked = self.unpack_list(t, s.value, after) if e.ty.startswith("List ") else None
+                    if unpacked is not None:
+                        return unpacked
                     raise Untranslatable(f"tuple assignment of a value of type {e.ty}: {ast.unparse(s)}")
                 sets = []
                 for i, (tg, ty) in enumerate(zip(t.elts, pt)):
@@ -1838,8 +1861,8 @@ class Fn:
             body = f"let σ := {{ σ with {loc} := {par} }}\n{body}"
         self._body = body
         if self.p.get("type_params"):
-            return self.with_type_params(self.translate_mono())
-        return self.translate_mono()
+            return self.with_type_params(self.translate_mono()) + self.defaults_text()
+        return self.translate_mono() + self.defaults_text()
 
     def with_type_params(self, text):
         """generic in the types `type_params`: the record takes them explicitly, every definition implicitly"""
@@ -1906,6 +1929,44 @@ class Fn:
                 main = re.sub(re.escape(ln) + r"(?!\d)", f"{ln} {pnames}", main)
                 text = re.sub(r"(?<!def )" + re.escape(ln) + r"(?!\d)", f"{ln} {pnames}", text)
         return text + main
+
+    def defaults_text(self):
+        """`emit_defaults`: the default values of the signature as definitions `F.dflt_<parameter>` (see the module docstring)"""
+        if not self.p.get("emit_defaults"):
+            return ""
+        # the values are those of the live function object (the module is imported from the current source): a default such
+        # as `Comparator.GreaterThan` is written relative to the class body and cannot be evaluated from the AST alone
+        pairs = [(q.name, q.default) for q in inspect.signature(self.obj).parameters.values() if q.default is not inspect.Parameter.empty]
+        out = []
+        for pname, v in pairs:
+            nm = mangle(pname)
+            # a parameter the function re-binds is a local that `init` starts from a Lean parameter of another name
+            par = nm if nm in self.ptypes else self.p.get("init", {}).get(nm)
+            if par not in self.ptypes:
+                continue
+            ty = self.ptypes[par]
+            if v is None:
+                if not ty.startswith("Option "):
+                    raise Untranslatable(f"default None of parameter '{pname}' of type {ty}")
+                term = "none"
+            elif isinstance(v, float) and ty in ("X Rat", "Num"):
+                term = self.lit(v).term
+                term = term[2:] if term.startswith("X.") else term.strip("()")
+                term = "." + term.lstrip(".")
+            elif isinstance(v, (bool, int, str, float)):
+                e = self.lit(v)
+                if not (e.ty == ty or (e.ty == "Nat" and ty == "Int")):
+                    raise Untranslatable(f"default {v!r} of parameter '{pname}' of type {ty}")
+                term = e.term
+            else:
+                e = self.const_object(v)
+                if e.ty != ty:
+                    raise Untranslatable(f"default {v!r} of parameter '{pname}' of type {ty}")
+                term = e.term
+            tps = [t for t in self.p.get("type_params", []) if re.search(r"(?<![\w.])" + re.escape(t) + r"(?![\w.])", ty)]
+            impl = "".join(f" {{{t} : Type}} [Inhabited {t}]" for t in tps)
+            out.append(f"def {self.name}.dflt_{nm}{impl} : {ty} := {term}")
+        return ("\n-- the default values of the signature\n" + "\n".join(out) + "\n") if out else ""
 
 
 def split_prod(t):
